@@ -304,6 +304,135 @@ def variants(world, tier="quick", only=None):
     return out
 
 
+
+# ---- the entry point of the size measures ------------------------------------------------------------
+MEASURE_CALLBACK = {"MEASURE_TREE_NODES": "walk_count_tree", "MEASURE_DAG_NODES": "walk_count_dag", "MEASURE_LEAVES": "walk_count_leaves",
+                    "MEASURE_DEPTH": "walk_count_depth", "MEASURE_SYMBOLS": "walk_count_symbols", "MEASURE_BOOL_DAG": "walk_count_bool_dag"}
+SET_VALUED = ("MEASURE_DAG_NODES", "MEASURE_SYMBOLS", "MEASURE_BOOL_DAG")
+
+
+def measure_values(repo):
+    """{name: number} of the measure constants, read from the class body: `(A, B, ...) = range(n)`"""
+    import ast
+    mi, ci = repo.find_class("pysmt.oracles.SizeOracle")
+    out = {}
+    for n in ci["node"].body if "node" in ci else []:
+        if isinstance(n, ast.Assign) and len(n.targets) == 1 and isinstance(n.targets[0], ast.Tuple) \
+                and isinstance(n.value, ast.Call) and ast.unparse(n.value.func) == "range":
+            for i, t in enumerate(n.targets[0].elts):
+                out[t.id] = i
+    return out
+
+
+class SizeEntryVariant(Variant):
+    """SizeOracle.get_size(formula, measure) for each named measure (and for none given: tree nodes): the walk runs with the
+    callback that the class comment documents for that measure installed for every operator, the measure is part of the
+    walk's arguments (it is the memo key's first component), and the answer is the walk's number, or the number of elements
+    of the walk's set for the three set-valued measures."""
+    prop_ids = ("C12",)
+    qualname = "pysmt.oracles.SizeOracle.get_size"
+
+    def __init__(self, world, mname):
+        self.world, self.mname = world, mname
+        self.name = "size-entry:%s" % (mname or "default")
+
+    def setup(self, ex):
+        from pyvc.symex import Builtin, FuncVal
+        W = self.world
+        env = core.make_env(ex, W)
+        self.effective = self.mname or "MEASURE_TREE_NODES"
+        self.value = measure_values(W.repo)[self.effective]
+        self.f = z3.Const("formula", Node)
+        W.touch(ex, self.f)
+        self.installed, self.walks = [], []
+        self.num = z3.Const("walk_number", I)
+        self.elems = [z3.Const("elem%d" % i, Node) for i in range(3)]
+        ex.assume(z3.Distinct(self.elems))
+        v = self
+        o = Obj("pysmt.oracles.SizeOracle", {"env": env, "stack": []}, tag="sizeo")
+
+        def set_function(exx, a, kw):
+            rest = a[1:] if a and a[0] is o else a
+            v.installed.append((rest[0], list(rest[1:])))
+            return None
+
+        def walk(exx, a, kw):
+            rest = a[1:] if a and a[0] is o else a
+            v.walks.append((rest[0] if rest else kw.get("formula"), dict(kw)))
+            if v.effective in SET_VALUED:
+                return SetVal(list(v.elems))
+            return v.num
+        # measure_to_fun as the constructor builds it: the dictionary literal of __init__, read from the source
+        import ast
+        from pyvc.symex import DictVal
+        init = W.repo.method("pysmt.oracles.SizeOracle", "__init__")
+        mv = measure_values(W.repo)
+        items = []
+        for n in ast.walk(init.node):
+            if isinstance(n, ast.Assign) and ast.unparse(n.targets[0]) == "self.measure_to_fun" and isinstance(n.value, ast.Dict):
+                for k_, v_ in zip(n.value.keys, n.value.values):
+                    kn, vn = ast.unparse(k_).rsplit(".", 1)[-1], ast.unparse(v_).rsplit(".", 1)[-1]
+                    mfi = W.repo.method("pysmt.oracles.SizeOracle", vn)
+                    if kn in mv and mfi is not None:
+                        items.append([mv[kn], W.wrap_func(mfi, mfi.module, bound=o)])
+        o.fields["measure_to_fun"] = DictVal(items)
+        o.fields["set_function"] = Builtin("set_function", set_function, bound=o)
+        o.fields["walk"] = Builtin("walk", walk, bound=o)
+        self.o = o
+        fi = W.repo.func(self.qualname)
+        fn = W.wrap_func(fi, fi.module, bound=o)
+        if self.mname is None:
+            return fn, [self.f], {}
+        return fn, [self.f], {"measure": self.value}
+
+    def check(self, ex, outcome):
+        from pyvc.symex import FuncVal, to_int
+        kind, r = outcome
+        if kind == "raise":
+            return [("no-exception", z3.BoolVal(False))]
+        goals = []
+        want_cb = MEASURE_CALLBACK[self.effective]
+        ok = len(self.installed) >= 1
+        if ok:
+            fn, types = self.installed[-1]
+            nm = getattr(getattr(fn, "fi", None), "name", None) or getattr(fn, "name", None)
+            ok = nm == want_cb
+            self.got_cb = nm
+            alltypes = set(range(S.NOPS))
+            flat = set()
+            for t in types:
+                if isinstance(t, int):
+                    flat.add(t)
+            goals.append(("callback-installed-for-every-operator", z3.BoolVal(flat >= alltypes)))
+        goals.append(("documented-callback-of-the-measure-installed", z3.BoolVal(bool(ok))))
+        okw = len(self.walks) == 1 and is_z3(self.walks[0][0]) and self.walks[0][0].eq(self.f)
+        goals.append(("walks-the-formula-once", z3.BoolVal(bool(okw))))
+        if okw:
+            m = self.walks[0][1].get("measure")
+            goals.append(("measure-is-part-of-the-walk-arguments", z3.BoolVal(m is not None and (m == self.value if not is_z3(m) else False))))
+        if self.effective in SET_VALUED:
+            goals.append(("answer-is-the-number-of-elements", (to_int(r) == 3) if (is_z3(r) or isinstance(r, int)) else z3.BoolVal(False)))
+        else:
+            goals.append(("answer-is-the-number-of-the-walk", (to_int(r) == self.num) if (is_z3(r) or isinstance(r, int)) else z3.BoolVal(False)))
+        return goals
+
+    def witness(self, model, ex):
+        return {"measure": self.effective, "callback_installed": getattr(self, "got_cb", None)}
+
+
+_base_variants12 = variants
+
+
+def variants(world, tier="quick", only=None):
+    out = _base_variants12(world, tier, only)
+    for m in list(MEASURE_CALLBACK) + [None]:
+        v = SizeEntryVariant(world, m)
+        if only and not any(o in v.name for o in only):
+            continue
+        out.append(v)
+    return out
+
+
 def extras(prop, tier, seed):
     """bounded stand-in (never counted as proved): TypesOracle.expand_types / get_types on an
     enumerated family of sorts - its work-list over sort objects is outside pyvc's reach"""
